@@ -266,6 +266,41 @@ theorem toSys_reject (T : UType) (targets : List Nat) {u : String} (hu : u ∉ T
   have hn : T.idx? u = none := findIdx_eq_none.2 hu
   simp [toSys, hn]
 
+/-! Round 4: each leg of the dispatch is one function applied to every element (or a refusal that does not
+    depend on the values). -/
+
+theorem legFrom_pointwise (T : UType) (u : String) (xs ys : List Rat) (h : T.legFrom u xs = .ok ys) :
+    ∃ g : Rat → Rat, ys = xs.map g ∧ ∀ zs, T.legFrom u zs = .ok (zs.map g) := by
+  by_cases hb : u = T.base
+  · refine ⟨id, ?_, fun zs => by simp [UType.legFrom, hb]⟩
+    simp [UType.legFrom, hb] at h
+    simp [h]
+  · cases hi : T.idx? u with
+    | none => simp [UType.legFrom, hb, hi] at h
+    | some i =>
+      cases hf : T.toBase[i]? with
+      | none => simp [UType.legFrom, hb, hi, hf] at h
+      | some f =>
+        refine ⟨f, ?_, fun zs => by simp [UType.legFrom, hb, hi, hf]⟩
+        simp [UType.legFrom, hb, hi, hf] at h
+        exact h.symm
+
+theorem legTo_pointwise (T : UType) (v : String) (xs ys : List Rat) (h : T.legTo v xs = .ok ys) :
+    ∃ g : Rat → Rat, ys = xs.map g ∧ ∀ zs, T.legTo v zs = .ok (zs.map g) := by
+  by_cases hb : v = T.base
+  · refine ⟨id, ?_, fun zs => by simp [UType.legTo, hb]⟩
+    simp [UType.legTo, hb] at h
+    simp [h]
+  · cases hi : T.idx? v with
+    | none => simp [UType.legTo, hb, hi] at h
+    | some j =>
+      cases hf : T.fromBase[j]? with
+      | none => simp [UType.legTo, hb, hi, hf] at h
+      | some f =>
+        refine ⟨f, ?_, fun zs => by simp [UType.legTo, hb, hi, hf]⟩
+        simp [UType.legTo, hb, hi, hf] at h
+        exact h.symm
+
 end UType
 
 namespace Cert
